@@ -1,13 +1,17 @@
 (* C11 - file-format modules are total, bounded and deterministic on any bytes.
-   PARTIAL: what is proved concerns the arithmetic core pe::rva_to_offset
-   (Modules/Rva.v, exactly as coded) and the loop / recursion skeletons with
+   PARTIAL: what is proved concerns arithmetic cores over attacker-controlled
+   integers, each modelled exactly as coded (pe::rva_to_offset: Modules/Rva.v;
+   uleb128 / sleb128: Modules/Leb.v; dotnet var_uint / var_sint: Modules/VarInt.v;
+   dotnet coded and table indexes, pe overlay, lnk length_data, elf
+   rva_to_offset: Modules/Cores.v) and the loop / recursion skeletons with
    their caps (Modules/Caps.v, constants and guard shapes regenerated from the
    parsers: Gen/ModCaps.v).  The nom parsers, ASN.1, authenticode, protobuf
    serialisation are not modelled; a theorem here cannot exhibit a stack
    overflow or allocation growth of the real code: those are covered only by
    the supporting tests of harness/src/bin/c11.rs (child processes). *)
 From Coq Require Import List NArith ZArith Arith Bool Lia.
-From YV Require Import Modules.Rva Modules.RvaProofs Gen.ModCaps Modules.Caps Modules.CapsProofs.
+From YV Require Import Modules.Rva Modules.RvaProofs Gen.ModCaps Modules.Caps Modules.CapsProofs
+  Modules.Leb Modules.LebProofs Modules.VarInt Modules.VarIntProofs Modules.Cores Modules.CoresProofs.
 Import ListNotations.
 
 (* no arithmetic step of rva_to_offset under- or overflows, for any section
@@ -76,3 +80,86 @@ Theorem rsrc_walk_bound_reached : forall e,
   (102 <= e -> rsrc_entries_examined (bomb e) 0 = (pe_MAX_PE_RESOURCE_DIR_ENTRIES + 1)%N).
 Proof. exact CapsProofs.rsrc_examined_reached. Qed.
 Print Assumptions rsrc_walk_bound_reached.
+
+(* ---------------------------------------------------------------- LEB128 (utils/leb128.rs) *)
+(* the u32 shift counter cannot overflow, at most 10 bytes are consumed, the
+   result is a u64 *)
+Theorem uleb_no_overflow : forall bytes,
+  match uleb128 bytes with
+  | LOk v n => (0 <= v < 2 ^ 64)%Z /\ (n <= 10)%nat
+  | LShiftOverflow => False
+  | _ => True
+  end.
+Proof. exact LebProofs.uleb_no_overflow. Qed.
+Print Assumptions uleb_no_overflow.
+
+Theorem uleb_roundtrip : forall n rest, (0 <= n < 2 ^ 64)%Z ->
+  uleb128 (uleb_encode n ++ rest) = LOk n (length (uleb_encode n)).
+Proof. exact LebProofs.uleb_roundtrip. Qed.
+Print Assumptions uleb_roundtrip.
+
+Theorem sleb_no_overflow : forall bytes,
+  match sleb128 bytes with
+  | LOk v n => (- 2 ^ 63 <= v < 2 ^ 63)%Z /\ (n <= 10)%nat
+  | LShiftOverflow => False
+  | _ => True
+  end.
+Proof. exact LebProofs.sleb_no_overflow. Qed.
+Print Assumptions sleb_no_overflow.
+
+(* ---------------------------------------------------------------- dotnet var_uint / var_sint *)
+Theorem var_int_ranges : forall bytes, VarIntProofs.bytes_ok bytes ->
+  (forall v n, var_uint bytes = Some (v, n) -> (0 <= v < 2 ^ 29)%Z /\ (n <= length bytes)%nat) /\
+  (forall v n, var_sint bytes = Some (v, n) -> (- 2 ^ 28 <= v < 2 ^ 28)%Z /\ (n <= length bytes)%nat).
+Proof. exact VarIntProofs.var_int_ranges. Qed.
+Print Assumptions var_int_ranges.
+
+Theorem var_uint_roundtrip : forall x rest, (0 <= x < 2 ^ 29)%Z ->
+  exists n, var_uint (enc_uint x ++ rest) = Some (x, n) /\ n = length (enc_uint x).
+Proof. exact VarIntProofs.var_uint_roundtrip. Qed.
+Print Assumptions var_uint_roundtrip.
+
+Theorem var_sint_roundtrip : forall w n rest, (w = 7 \/ w = 14 \/ w = 29)%Z -> (- 2 ^ (w - 1) <= n < 2 ^ (w - 1))%Z ->
+  exists k, var_sint (enc_sint w n ++ rest) = Some (n, k) /\ k = length (enc_sint w n).
+Proof. exact VarIntProofs.var_sint_roundtrip. Qed.
+Print Assumptions var_sint_roundtrip.
+
+(* ---------------------------------------------------------------- dotnet indexes *)
+(* `16 - tag_size` (u32) and `1u64.checked_shl(..).unwrap()` are safe for the
+   1..22 tables the parser asserts *)
+Theorem coded_index_width_total : forall n rows, (1 <= n <= 22)%Z ->
+  coded_index_width n rows = WBytes 2 \/ coded_index_width n rows = WBytes 4.
+Proof. exact CoresProofs.coded_index_width_total. Qed.
+Print Assumptions coded_index_width_total.
+
+Theorem coded_from_u32_roundtrip : forall n t r, (1 <= n <= 22)%Z -> (0 <= t < n)%Z -> (0 <= r)%Z ->
+  coded_from_u32 n ((r + 1) * 2 ^ tag_size n + t) = Some (t, r).
+Proof. exact CoresProofs.coded_from_u32_roundtrip. Qed.
+Print Assumptions coded_from_u32_roundtrip.
+
+Theorem coded_from_u32_in_range : forall n u t r, (1 <= n <= 22)%Z -> (0 <= u < 2 ^ 32)%Z ->
+  coded_from_u32 n u = Some (t, r) -> (0 <= t < n)%Z /\ (0 <= r < 2 ^ 32)%Z.
+Proof. exact CoresProofs.coded_from_u32_in_range. Qed.
+Print Assumptions coded_from_u32_in_range.
+
+(* ---------------------------------------------------------------- pe overlay, lnk blocks, elf entry point *)
+Theorem pe_overlay_spec : forall secs len off size, u32_pairs secs -> (0 <= len)%Z ->
+  pe_overlay secs len = (off, size) ->
+  (off = 0 /\ size = 0)%Z \/
+  ((0 < size)%Z /\ (off + size = len)%Z /\ (0 <= off < 2 ^ 33)%Z /\ forall s, In s secs -> (fst s + snd s <= off)%Z).
+Proof. exact CoresProofs.pe_overlay_spec. Qed.
+Print Assumptions pe_overlay_spec.
+
+Theorem lnk_length_data_in_bounds : forall input_len size_len size,
+  (0 <= size_len <= input_len)%Z -> (0 <= size)%Z ->
+  lnk_length_data input_len size_len size <> LUnderflow /\
+  forall n, lnk_length_data input_len size_len size = LTake n -> (0 <= n <= input_len - size_len)%Z.
+Proof. exact CoresProofs.lnk_length_data_in_bounds. Qed.
+Print Assumptions lnk_length_data_in_bounds.
+
+Theorem elf_rva_no_underflow : forall exe segs secs rva,
+  Forall phdr_ok segs -> Forall shdr_ok secs -> (0 <= rva <= Cores.u64_max)%Z ->
+  elf_rva_to_offset exe segs secs rva <> EUnderflow /\
+  forall o, elf_rva_to_offset exe segs secs rva = EFound (Some o) -> (0 <= o <= Cores.u64_max)%Z.
+Proof. exact CoresProofs.elf_rva_no_underflow. Qed.
+Print Assumptions elf_rva_no_underflow.
